@@ -11,12 +11,14 @@ def run(rep, tier):
     rep.rule("R-LU-SIBLINGS", "real and complex factorisation issue the same sequence of checks and error variants")
     rep.rule("R-PIVOT-ARGMAX", "the pivot search is an argmax idiom over |a[i,k]| (complex: |re|+|im|): accumulator and row index updated together under candidate > accumulator")
     rep.rule("R-MULT-SIGN", "writer/reader convention: the factorisation stores negative multipliers, the forward substitution adds them, the back substitution subtracts")
+    rep.rule("R-CPLX-ALGEBRA", "every (re, im) pair computed in lu_decomp_complex / lin_solve_complex is the exact complex product (or conj/|.|^2 quotient) of its operand pairs; the purely-real / purely-imaginary special cases are specialisations of the general formula")
     rep.rule("R-SOLVE-READONLY", "lin_solve{,_complex} take the factors and pivots by shared reference to a Freeze type and contain no unsafe: only the right-hand side changes")
     rep.rule("R-LU-CHECKED", "every factorisation call site in the solvers inspects the Result and the Err edge leaves the iteration")
     linalg.r_lu_errs(rep, f)
     linalg.r_lu_siblings(rep, f)
     linalg.r_pivot_argmax(rep, f)
     linalg.r_mult_sign(rep, f)
+    linalg.r_cplx_algebra(rep, f)
     linalg.r_solve_readonly(rep, f)
     linalg.r_lu_checked(rep, f)
     rep.explanation = ("Decides the error discipline, the pivoting idiom, the sign convention shared by factorisation and solves, and read-only-ness of the factors. "
